@@ -6,11 +6,16 @@
 WT=$1; ID=$2; shift 2
 set -u
 cd $WT || exit 2
+git diff -- htp > /tmp/mut-$ID-current.diff
+if ! diff -q /tmp/mut-$ID-current.diff seeded/patch.diff >/dev/null; then echo "NOTE: worktree diff differs from seeded/patch.diff; restoring the seeded patch"; git checkout -- htp; git apply seeded/patch.diff || exit 3; fi
 make check >/dev/null 2>&1; T1=$(grep -c "PASSED  \] 341 tests" test/test_all.log)
 bash seeded/run.sh >/tmp/mut-$ID-with.log 2>&1; R1=$?
-git stash -q -- htp; make >/dev/null 2>&1
+# (git stash is shared by all worktrees of a repository: never use it here)
+git diff -- htp > /tmp/mut-$ID-current.diff
+if ! diff -q /tmp/mut-$ID-current.diff seeded/patch.diff >/dev/null; then echo "NOTE: worktree diff differs from seeded/patch.diff; restoring the seeded patch"; git checkout -- htp; git apply seeded/patch.diff || exit 3; fi
+git checkout -- htp; make >/dev/null 2>&1
 bash seeded/run.sh >/tmp/mut-$ID-without.log 2>&1; R0=$?
-git stash pop -q; make >/dev/null 2>&1
+git apply seeded/patch.diff; make >/dev/null 2>&1
 echo "tests_pass_with_patch=$T1 demo_rc_with_patch=$R1 demo_rc_without_patch=$R0"
 mkdir -p /verif/seeded/$ID; cp seeded/patch.diff seeded/meta.json seeded/run.sh /verif/seeded/$ID/ 2>/dev/null; cp seeded/demo.* /verif/seeded/$ID/ 2>/dev/null
 cd /verif
